@@ -72,7 +72,7 @@ func nFlows(rng *hx.RNG, cls string) int {
 	case "mid":
 		return 250 + rng.Intn(250)
 	case "big":
-		return 7000 + rng.Intn(3000)
+		return 6000 + rng.Intn(2000)
 	}
 	hx.Die("codec: unknown block class %q", cls)
 	return 0
